@@ -23,8 +23,8 @@ PROPS = {
                 "inject an I/O failure or short writes at a random trait-level call; plus real dumps of live targets (the C01 generator) into a recording destination "
                 "with pre-existing content and a non-zero starting position: bytes before the start untouched, the image from the start, bytes beyond untouched. "
                 "Non-trivial = at least two flushes; distinct = "
-                "distinct (result, #faults, start-at-end, op-kind sequence).",
-        "expected_tags": ["result.ok", "result.err", "result.err-new", "script.fault", "script.short", "start.atEnd", "start.zero", "start.beyond4G", "op.patch", "dest.equal", "start.nonzero"],
+                "distinct (result, #faults, start-at-end, op-kind sequence). In a third of the live C09 cases the destination refuses one of the last nine calls of the request (call count learnt from a request let through): the request must fail (bytes before the start untouched) or return what the destination holds.",
+        "expected_tags": ["result.ok", "result.err", "result.err-new", "script.fault", "script.short", "start.atEnd", "start.zero", "start.beyond4G", "op.patch", "dest.equal", "start.nonzero", "dest.latefail", "aborted.prefix.checked"],
         "trusted_base": ["the destination honours seek (not O_APPEND) and a write that returns Ok(n) stored exactly the first n bytes",
                          "std::io::Write::write_all loop semantics (modelled; compared call by call)"],
         "assumptions": ["start offset inside the destination's existing content (theorem hypothesis; the gap case is compared against the model only)",
@@ -77,7 +77,7 @@ PROPS = {
     "C06": {
         "rule": "real get_stack_info on synthetic layouts (accessible / PROT_NONE guard / unmapped, gaps around the 1 MiB guard distance, top of the "
                 "address space, system range shorter than the hull), stack pointers at all in-page offsets; [live part: see DESIGN]. Non-trivial = "
-                "at least one mapping; distinct = distinct (result class, SP situation, in-page offset, #mappings).",
+                "at least one mapping; distinct = distinct (result class, SP situation, in-page offset, #mappings). Live sweep also with a thread whose stack pointer lies in the lowest mapping of the process (below the executable).",
         "expected_tags": ["result.ok", "result.err", "sp.mapped", "sp.guard", "sp.unmapped", "sp.top", "gather.checked", "gather.none"],
         "trusted_base": ["page size is a power of two"],
         "assumptions": ["mappings as produced by aggregate (HullOk; C13)"],
@@ -136,7 +136,7 @@ PROPS = {
                 "direct auxv) into destinations with pre-existing content; the Lean decoder collects every object of the real image and evaluates the "
                 "structural predicate. Distinct = distinct (#threads, #streams, option vector).",
         "expected_tags": ["cfg.crash", "cfg.limit", "cfg.sanitize", "cfg.skip", "cfg.app", "cfg.umap", "cfg.auxv", "threads.gt20", "stream.3", "stream.24", "stream.12", "image.exact"],
-        "extra_theorems": ["plan_entries_fit", "plan_types_distinct", "consts_agree"],
+        "extra_theorems": ["plan_entries_fit", "plan_types_distinct", "consts_agree", "System_builder", "gatherDump_ok", "systemDump_ok"],
         "trusted_base": ["the writers fill array slots with indices below the array size (thread list, module list, memory list: `enumerate()` over the list "
                          "that sized the array; thread names: C15_layout; directory: plan_entries_fit)",
                          "Linux/x86_64 only; src/mac and src/windows writers cannot be built or run here"],
@@ -149,7 +149,8 @@ PROPS = {
                        "Whole image: Model/Dump.lean is a closed-form model of generate_dump and its eighteen writers (header, directory, every stream body and "
                        "referenced blob in append order, every stored offset computed from what precedes it); C01_image_header / _directory / _streams_disjoint / "
                        "_thread_refs / _aliases prove, for every content record, what a reader finds in that image; the driver decodes every real image into such a "
-                       "record and demands that the model rebuilds the image byte for byte (every byte of a real dump is accounted for by the model). C01_compose_dump: generate_dump as builder operations (header and directory reserved, header filled, the eighteen writers in order, each directory entry set into the next slot) produces exactly the closed-form image (opDump d = some (dumpBytes d)); C01_refine_* / C01_image_module_refs / _os_version / _handle_refs / _link_map_refs cover the remaining writers and references.",
+                       "record and demands that the model rebuilds the image byte for byte (every byte of a real dump is accounted for by the model). C01_compose_dump: generate_dump as builder operations (header and directory reserved, header filled, the eighteen writers in order, each directory entry set into the next slot) produces exactly the closed-form image (opDump d = some (dumpBytes d)); C01_refine_* / C01_image_module_refs / _os_version / _handle_refs / _link_map_refs cover the remaining writers and references. System_builder (Theorems/System.lean): for the request as one function (gathering from the observed target state, then the image), the builder operations of generate_dump produce exactly the returned image.",
+        "extra_modules": ["MdwModel.Theorems.System"],
     },
     "C19": {
         "rule": "live: 2 … 5 dump requests on one configured writer against a blocked target, then one request on a freshly configured writer; every "
@@ -158,8 +159,8 @@ PROPS = {
                 "Before the last request of each history the target's resource limits are changed (prlimit), and the copies of the target's files that do "
                 "not change by themselves (release file, cmdline, environ, auxv, maps, limits) in that request's dump are compared byte for byte with the "
                 "fresh writer's dump of the same parked target. "
-                "Distinct = distinct (k, option vector, summary length).",
-        "expected_tags": ["k.2", "k.3", "k.4", "k.5", "cfg.crash", "cfg.app", "cfg.skip", "raw.compared", "target.mutated"],
+                "Distinct = distinct (k, option vector, summary length). In a quarter of the histories the target maps the page behind a partly readable application region before the last request; only that request is then compared with the fresh writer's.",
+        "expected_tags": ["k.2", "k.3", "k.4", "k.5", "cfg.crash", "cfg.app", "cfg.skip", "raw.compared", "target.mutated", "target.grown"],
         "trusted_base": ["the target is blocked in raw syscalls, so its state is the same at every request"],
         "assumptions": ["Linux writer only (src/mac has the same field but cannot be built here)"],
         "explanation": "C19 theorems over the model of the writer's per-request state: with the reset on entry an image is independent of the state left by "
@@ -180,9 +181,9 @@ PROPS = {
                        "directory slot 3, names the blamed thread, carries the supplied values, and its context location is the location stored in the blamed "
                        "thread's thread-list record, where that context's bytes are (or the stand-alone copy of the supplied context). "
                        "E2E_crash_thread (Theorems/EndToEnd.lean): in the model of the thread-list loop the listed thread the crash context blames takes its "
-                       "stack pointer, instruction pointer and registers from the crash context, whatever ptrace reported for it.",
-        "extra_modules": ["MdwModel.Theorems.EndToEnd"],
-        "extra_theorems": ["E2E_crash_thread", "E2E_other_thread"],
+                       "stack pointer, instruction pointer and registers from the crash context, whatever ptrace reported for it. System_crash_context (Theorems/System.lean): for the request as one function from the observed target state to the image, the exception stream carries the supplied signal data and its context is the supplied one, the same bytes the blamed thread's record points at.",
+        "extra_modules": ["MdwModel.Theorems.EndToEnd", "MdwModel.Theorems.System"],
+        "extra_theorems": ["E2E_crash_thread", "E2E_other_thread", "System_crash_context"],
     },
     "C04": {
         "rule": "in-process: random user_regs / fpregs / debug registers through the real ThreadInfo::fill_cpu_context; live: targets whose threads load sentinel "
@@ -190,18 +191,19 @@ PROPS = {
                 "threads made to exit at threads_enumerated / before_attach through the sync hook (target not group-stopped), a blamed thread traced by "
                 "another process, busy threads keeping one counter in a register, a stack slot and an app-memory word. Distinct = (thread count, #exits, tag set).",
         "expected_tags": ["pctx", "thread.checked", "exit.omitted", "busy.checked", "blamed.traced", "exits.threads_enumerated", "exits.before_attach"],
-        "extra_theorems": ["plan_no_target_read_after_resume", "plan_resume_reached"],
+        "extra_theorems": ["plan_no_target_read_after_resume", "plan_resume_reached", "System_threads"],
         "trusted_base": ["kernel ptrace stop semantics (a thread that was attached and waited for does not run until detached)", "the live target reports its own register values"],
         "assumptions": ["part (iii) is partial: real scheduling cannot be exhibited by the model; live runs sample it (busy threads, one-step agreement of three copies of a counter)"],
         "explanation": "C04 theorems: (i) every ptrace-obtained register at its WinNT CONTEXT offset; (ii) the list is exactly the attachable, non-null-SP threads, "
-                       "once each, each with its own registers, every omitted thread reported; (iii) regenerated source fact: no target-reading step after resume. C04_refine_thread_list: thread_list_stream::write as builder operations (count, reserved record array, per thread stack / window / context then set_value_at(record, idx)) appends exactly the thread-list stage of the whole-image model, one record per thread in order, and registers exactly its memory blocks and crashing-thread context; C04_image_thread: record k points at thread k's own context bytes.",
+                       "once each, each with its own registers, every omitted thread reported; (iii) regenerated source fact: no target-reading step after resume. C04_refine_thread_list: thread_list_stream::write as builder operations (count, reserved record array, per thread stack / window / context then set_value_at(record, idx)) appends exactly the thread-list stage of the whole-image model, one record per thread in order, and registers exactly its memory blocks and crashing-thread context; C04_image_thread: record k points at thread k's own context bytes. System_threads (Theorems/System.lean): the image of the request-as-one-function lists the attached threads one to one, in order, with their ids.",
+        "extra_modules": ["MdwModel.Theorems.System"],
     },
     "C07": {
         "rule": "live dumps: pattern regions of 1 … 70000 bytes at all alignments ending at an unmapped / PROT_NONE / readable page requested as app memory, "
                 "crash instruction pointers inside / outside mappings, thread stacks; every recorded region is compared byte for byte with a snapshot of the "
                 "target's memory taken while it is blocked; the IP window is predicted from the target's memory map through the aggregate model. "
-                "Distinct = (list length, app lengths, tag set).",
-        "expected_tags": ["bytes.compared", "cfg.app", "ipwindow.expected", "ip.unmapped", "cfg.sanitize"],
+                "Distinct = (list length, app lengths, tag set). Also requests made by a thread whose seccomp filter refuses process_vm_readv and pread64 (the reader falls back to PTRACE_PEEKDATA): application regions of every length mod 8 that end at a hole, crash instruction pointers just before it.",
+        "expected_tags": ["bytes.compared", "cfg.app", "ipwindow.expected", "ip.unmapped", "cfg.sanitize", "read.ptrace", "app.partialword"],
         "trusted_base": ["the harness reads the target's memory through /proc/<pid>/mem while it is blocked"],
         "assumptions": ["first or later dump of a writer alike (C19)", "an unreadable app region or IP window aborts the dump with Err (outside C07)",
                         "with sanitization the stack regions are intentionally altered (C12) and are not byte-compared"],
@@ -209,7 +211,9 @@ PROPS = {
                        "(count + descriptors in registration order); registration completeness. Faithfulness of the bytes rests on C17. "
                        "C07_image_list / _thread_regions / _app_regions: in the whole-image model (Model/Dump.lean) of any content the memory list in directory slot 2 "
                        "is the serialised list of registered blocks; every captured stack, instruction-pointer window and application region is such a block with "
-                       "the requested address and the length read, and the image holds its captured bytes at the block's location.",
+                       "the requested address and the length read, and the image holds its captured bytes at the block's location. Theorems/System.lean states these for the request as one function (systemDump = dumpBytes ∘ gatherDump over the observed target state, the reader being the C17 model): System_stack and System_app say that the image records stacks and readable application regions with their addresses, lengths and the target's bytes, and lists them in the memory list.",
+        "extra_modules": ["MdwModel.Theorems.System"],
+        "extra_theorems": ["System_stack", "System_app", "gatherApp_get"],
     },
     "C14": {
         "rule": "BuildId::read_from_module / SoName::read_from_module (slice mode, each under catch_unwind) on: random byte strings of 0 … 200 bytes; "
@@ -289,8 +293,8 @@ PROPS = {
                 "traced by another process, threads that exit between enumeration and attach (each omitted thread must be a reported soft error), a target "
                 "that is killed and reaped while the dump is under way (from the destination, when the n-th directory entry is written, n = 6 … 16: every later "
                 "step that copies one of the target's files or reads its memory must be listed under its own label, no completed step may be), nothing induced. The soft-error stream is parsed with serde_json and reduced to its list of variant paths. "
-                "Distinct = (scenario, mask, #threads, principal).",
-        "expected_tags": ["scen.faults", "scen.badname", "scen.baddso", "scen.traced", "scen.none", "scen.killed", "killed.checked", "mask.0", "mask.31"],
+                "Distinct = (scenario, mask, #threads, principal). Also a linker list with an object name that is not UTF-8 (badlink).",
+        "expected_tags": ["scen.faults", "scen.badname", "scen.baddso", "scen.traced", "scen.none", "scen.killed", "killed.checked", "scen.badlink", "mask.0", "mask.31"],
         "extra_theorems": ["plan_best_effort_soft", "plan_soft_errors_last"],
         "trusted_base": ["serde_json emits well-formed JSON (the harness re-parses it)", "error-graph pushes a sub-list to its parent on drop iff it is non-empty", "failspot"],
         "assumptions": ["the stop time-out (StopProcessFailed/Timeout) may appear on its own when a thread is traced by another process: timing dependent, tolerated in the natural scenarios"],
